@@ -91,3 +91,10 @@ TEXT["C12"] = {
     "note": "trusts the harness value model and the hook counters",
     "technique": "API-boundary monitor with wrong-type witness injection + frame-bounds hook",
 }
+TEXT["C03"] = {
+    "level": ("Differential monitoring against the vendored C reference on generated, mutated and random byte pairs; every pair is decided (agree / disagree / C-side limit). "
+              "Thousands of both-accept cases per quick run carry the root and cost comparison; agreement on rejection alone is not counted as sufficient (counter floor)."),
+    "design_ref": "DESIGN.md section 5, C03",
+    "note": "trusts libsimplicity (C) as the specification and the simplicity-sys test bindings used to reach it (C14 monitors those bindings)",
+    "technique": "differential monitor against the vendored C implementation over generated/mutated/random encodings",
+}
